@@ -50,6 +50,10 @@ pub struct EventCase {
     /// 4 hashes and signatures left over from hashing+signing an earlier version of the event
     #[serde(default)]
     pub prior: u8,
+    /// 0: one key per server; 1 / 2: every server signs with a second key as well whose id sorts
+    /// before / after the first (key rotation); the verifier knows both keys
+    #[serde(default)]
+    pub two_keys: u8,
 }
 
 fn server_of_user(u: &str) -> Option<&str> {
@@ -171,8 +175,22 @@ pub fn oracle(c: &EventCase, cx: &mut CaseCtx) -> Result<(), String> {
         let seed = &c.seeds[idx(s)?];
         let kp = Ed25519KeyPair::from_der(&der(seed, c.der_form), c.key_version.clone()).map_err(|e| format!("from_der: {e}"))?;
         hash_and_sign_event(s, &kp, &mut obj, &rules.redaction).map_err(|e2| format!("hash_and_sign_event failed on a well-formed event (v{v}): {e2}"))?;
-        if Some(s) != extra.as_ref() || c.extra_key_known || required.is_empty() {
+        let known = Some(s) != extra.as_ref() || c.extra_key_known || required.is_empty();
+        if known {
             map.entry(s.clone()).or_default().insert(kid.clone(), Base64::new(public_key(seed).to_vec()));
+        }
+        if c.two_keys % 3 != 0 {
+            let mut seed2 = *seed;
+            seed2.reverse();
+            seed2[0] ^= 0x77;
+            let v2 = if c.two_keys % 3 == 1 { format!("0{}", c.key_version) } else { format!("{}z", c.key_version) };
+            let kp2 = Ed25519KeyPair::from_der(&der(&seed2, c.der_form), v2.clone()).map_err(|e| format!("from_der: {e}"))?;
+            hash_and_sign_event(s, &kp2, &mut obj, &rules.redaction).map_err(|e2| format!("second hash_and_sign_event by {s} failed (v{v}): {e2}"))?;
+            if known {
+                map.entry(s.clone()).or_default().insert(format!("ed25519:{v2}"), Base64::new(public_key(&seed2).to_vec()));
+            }
+            let kid2 = format!("ed25519:{v2}");
+            cx.class(if kid2 < kid { "second_key_id_sorts_first" } else { "second_key_id_sorts_last" });
         }
     }
     let signed = match to_ref(&CanonicalJsonValue::Object(obj.clone())) {
@@ -371,7 +389,7 @@ pub fn run(ck: &mut Check) {
         "sign_verify_events",
         n,
         move || {
-            (pdu::pdu(), any::<[[u8; 32]; 3]>(), 0u8..3, "[A-Za-z0-9_]{1,6}", any::<bool>(), any::<bool>(), post(), prop_oneof![3 => Just(0u8), 1 => 1u8..5]).prop_map(|(pdu, seeds, der_form, key_version, extra_signer, extra_key_known, post, prior)| EventCase {
+            (pdu::pdu(), any::<[[u8; 32]; 3]>(), 0u8..3, "[A-Za-z0-9_]{1,6}", any::<bool>(), any::<bool>(), post(), prop_oneof![3 => Just(0u8), 1 => 1u8..5], prop_oneof![2 => Just(0u8), 1 => 1u8..3]).prop_map(|(pdu, seeds, der_form, key_version, extra_signer, extra_key_known, post, prior, two_keys)| EventCase {
                 pdu,
                 seeds,
                 der_form,
@@ -380,11 +398,12 @@ pub fn run(ck: &mut Check) {
                 extra_key_known,
                 post,
                 prior,
+                two_keys,
             })
         },
         oracle,
     );
-    for cls in ["v1-2", "v3-7", "v8-10", "v11", "multi_signer_requirement", "third_party_invite_no_sender_signature", "restricted_join_authoriser", "mut_kept_field", "mut_stripped_hashed_field", "mut_unsigned_only", "required_signature_missing", "redacted_copy_hash_invalid", "redacted_copy_hash_still_valid", "extra_signature_without_key", "event_carried_hashes_before_signing", "rehash_and_resign_after_edit"] {
+    for cls in ["v1-2", "v3-7", "v8-10", "v11", "multi_signer_requirement", "third_party_invite_no_sender_signature", "restricted_join_authoriser", "mut_kept_field", "mut_stripped_hashed_field", "mut_unsigned_only", "required_signature_missing", "redacted_copy_hash_invalid", "redacted_copy_hash_still_valid", "extra_signature_without_key", "event_carried_hashes_before_signing", "rehash_and_resign_after_edit", "second_key_id_sorts_first", "second_key_id_sorts_last", "required_signature_corrupt"] {
         ck.floor("sign_verify_events", cls, 50);
     }
 }
